@@ -415,40 +415,91 @@ pub fn onion_payload(
     with_length_prefix(&encode_tlv(&recs))
 }
 
+/// A BigSize prefix byte followed by fewer bytes than it announces: every
+/// width (2/4/8) at every truncation length.
+pub fn trunc_varint(rng: &mut Rng) -> Vec<u8> {
+    let (b, w) = *rng.pick(&[(0xfdu8, 2u64), (0xfe, 4), (0xff, 8)]);
+    let k = rng.below(w);
+    let mut v = vec![b];
+    for _ in 0..k {
+        v.push(match rng.below(3) {
+            0 => 0x00,
+            1 => 0xff,
+            _ => rng.below(256) as u8,
+        });
+    }
+    v
+}
+
 /// Malformed metadata values (the bytes inside record 16).
 pub fn malformed_metadata(rng: &mut Rng, invoice: &[u8]) -> (Vec<u8>, &'static str) {
-    match rng.below(14) {
-        0 => (vec![0xfd], "meta:fd"),
-        1 => (vec![0xfd, 0x01], "meta:fd01"),
-        2 => (vec![0xfe, 0x00, 0x00], "meta:fe0000"),
-        3 => (vec![0xff, 1, 2, 3, 4, 5], "meta:ff-trunc"),
-        4 => (vec![0x01, 0xfd, 0x01], "meta:len-fd-trunc"),
-        5 => (vec![0x01, 0xfe, 0x01, 0x02], "meta:len-fe-trunc"),
-        6 => (vec![0x01, 0xff, 1, 2, 3], "meta:len-ff-trunc"),
-        7 => (vec![0x01, 0x05, 0x00], "meta:len-past-end"),
-        8 => (Vec::new(), "meta:empty"),
-        9 => (vec![0x00], "meta:one-byte"),
-        10 => {
-            // type 33001 but truncated in the length varint
-            (vec![0xfd, 0x80, 0xe9, 0xfd, 0x01], "meta:inv-len-trunc")
+    match rng.below(12) {
+        0 => (trunc_varint(rng), "meta:type-varint-truncated"),
+        1 => {
+            // type fine, length varint truncated
+            let mut v = if rng.chance(1, 2) {
+                vec![0x01]
+            } else {
+                vec![0xfd, 0x80, 0xe9]
+            };
+            v.extend(trunc_varint(rng));
+            (v, "meta:length-varint-truncated")
         }
-        11 => {
+        2 => {
+            // length running past the end
+            let n = 1 + rng.below(40);
+            let have = rng.below(n);
+            let mut v = vec![0x01];
+            super::reference::write_bigsize(&mut v, n);
+            v.extend(std::iter::repeat(0x41).take(have as usize));
+            (v, "meta:length-past-end")
+        }
+        3 => (Vec::new(), "meta:empty"),
+        4 => (vec![rng.below(256) as u8], "meta:one-byte"),
+        5 => {
             // huge declared length
             (
                 vec![0xfd, 0x80, 0xe9, 0xff, 0xff, 0xff, 0xff, 0xff, 0xff, 0xff, 0xff, 0xff],
                 "meta:inv-len-huge",
             )
         }
-        12 => {
-            // valid stream followed by a truncated varint
+        6 => {
+            // valid stream followed by a truncated varint (type position)
             let mut v = encode_tlv(&[(33001, invoice.to_vec())]);
-            v.extend_from_slice(&[0xfe, 0x01]);
-            (v, "meta:good-then-trunc")
+            v.extend(trunc_varint(rng));
+            (v, "meta:good-then-truncated-type")
         }
-        _ => {
+        7 => {
+            // valid stream followed by a type and a truncated length
+            let mut v = encode_tlv(&[(33001, invoice.to_vec())]);
+            v.push(0x03);
+            v.extend(trunc_varint(rng));
+            (v, "meta:good-then-truncated-length")
+        }
+        8 => {
             // length-prefixed shapes that reach the payload-rewrite branch
             let inner = encode_tlv(&[(33001, vec![0x41, 0x42])]);
             (with_length_prefix(&inner), "meta:length-prefixed")
+        }
+        9 => {
+            // length-prefixed, inner stream truncated
+            let mut inner = encode_tlv(&[(33003, vec![0x05])]);
+            inner.extend(trunc_varint(rng));
+            (with_length_prefix(&inner), "meta:length-prefixed-truncated")
+        }
+        10 => {
+            // well-formed for the plain parser, but its first bytes read as a
+            // length prefix followed by a truncated record
+            let mut v = encode_tlv(&[(33001, vec![0xff, 0xfe, 0xfd])]);
+            v.extend(trunc_varint(rng));
+            (v, "meta:invoice-not-utf8-then-truncated")
+        }
+        _ => {
+            let n = 2 + rng.below(12);
+            let v: Vec<u8> = (0..n)
+                .map(|_| *rng.pick(&[0xfdu8, 0xfe, 0xff, 0x00, 0x01, 0x10, 0x80]))
+                .collect();
+            (v, "meta:varint-soup")
         }
     }
 }
@@ -503,14 +554,36 @@ pub fn unusable_metadata(rng: &mut Rng, pool: &Pool, hash_ix: usize) -> (Vec<u8>
 
 /// Undecodable onion payloads / requests (C06: arbitrary payload bytes).
 pub fn undecodable_payload(rng: &mut Rng) -> (String, &'static str) {
-    match rng.below(8) {
+    match rng.below(9) {
         0 => ("zz".to_string(), "payload:bad-hex"),
         1 => ("abc".to_string(), "payload:odd-hex"),
-        2 => ("fd".to_string(), "payload:prefix-fd-trunc"),
-        3 => ("fe0000".to_string(), "payload:prefix-fe-trunc"),
-        4 => ("04020105".to_string(), "payload:record-past-end"),
-        5 => ("0302fd01".to_string(), "payload:len-varint-trunc"),
-        6 => ("03fd0102".to_string(), "payload:type-varint-trunc"),
+        2 => (hex::encode(trunc_varint(rng)), "payload:prefix-varint-truncated"),
+        3 => ("04020105".to_string(), "payload:record-past-end"),
+        4 => {
+            // prefix, type, truncated length
+            let mut v = vec![0x0c, 0x02];
+            v.extend(trunc_varint(rng));
+            (hex::encode(v), "payload:length-varint-truncated")
+        }
+        5 => {
+            let mut v = vec![0x0c];
+            v.extend(trunc_varint(rng));
+            (hex::encode(v), "payload:type-varint-truncated")
+        }
+        6 => {
+            // a good record, then a truncated one
+            let mut v = vec![0x10, 0x02, 0x01, 0x05];
+            v.push(0x04);
+            v.extend(trunc_varint(rng));
+            (hex::encode(v), "payload:good-then-truncated")
+        }
+        7 => {
+            let n = 2 + rng.below(12);
+            let v: Vec<u8> = (0..n)
+                .map(|_| *rng.pick(&[0xfdu8, 0xfe, 0xff, 0x00, 0x01, 0x10, 0x80]))
+                .collect();
+            (hex::encode(v), "payload:varint-soup")
+        }
         _ => ("0410ff0102".to_string(), "payload:len-ff-trunc"),
     }
 }
